@@ -82,6 +82,14 @@ pub fn step_join_all(c: &JCfg) {
                     i += 1;
                 }
             }
+            // polling again after completion must not fabricate anything
+            if nd::flag() {
+                if let Poll::Ready(v2) = Pin::new(&mut ja).poll(&mut cx) {
+                    vassert!(v2.len() == 0, "C07:join_all polled again after completion handed out values no input produced");
+                    core::mem::forget(v2);
+                }
+                vcover!(true, "cover:poll_after_ready");
+            }
             vcover!(true, "cover:ready");
             core::mem::forget(ja);
         }
